@@ -180,6 +180,19 @@ def run_inner_batch():
         raise BatchFailure(f"the inner batch returned {got!r}")
 
 
+class StableLookup(__import__("ECAgent.Environments", fromlist=["x"]).LookupGenerator):
+    """A bundled generator object handed to every run as ONE parameter value ("same terrain for all"); repr is stable
+    across the pickle boundary so that it can be part of a run's signature."""
+
+    def __repr__(self):
+        return f"StableLookup({self.table!r})"
+
+    def __eq__(self, other):
+        return isinstance(other, StableLookup) and self.table == other.table
+
+    __hash__ = None
+
+
 class BatchModel(Model):
     def __init__(self, **params):
         super().__init__(seed=1)       # never OS entropy inside the harness: every run must replay exactly
